@@ -13,6 +13,6 @@ CONSTANTS
 INIT GInit
 NEXT GNext
 VIEW GView
-INVARIANTS TypeOK ChainedHistory SwitchNeverFails FnOrder RunOnlyAfterStart StopFnIffStarted CtxCancelledBeforeStopFn StopFnGetsRunError ContextReleased WaitersExact NoDoubleClose FirstErrorWins ListenerOrder NotifierNeverBlocks Quiescent EmitInit
+INVARIANTS TypeOK ChainedHistory SwitchNeverFails FnOrder RunOnlyAfterStart StopFnIffStarted CtxCancelledBeforeStopFn StopFnGetsRunError ContextReleased ContextOnceStarted WaitersExact NoDoubleClose FirstErrorWins ListenerOrder NotifierNeverBlocks Quiescent EmitInit
 ACTION_CONSTRAINT EmitTransition
 CHECK_DEADLOCK FALSE
